@@ -35,6 +35,7 @@ CFG = {
              'attribute values are outside the converter model; write-time defaults are tied by the whole-file oracle.'),
     'C03': dict(
         theorems=['Dlis.C03.frame_data_roundtrip', 'Dlis.C03.window_rows', 'Dlis.C03.element_bits',
+                  'Dlis.C03.cast_element_roundtrip', 'Dlis.C03.cast_exact_when_held', 'Dlis.C03.cast_wraps',
                   'Dlis.Obligations.dtypeCodes_eq', 'Dlis.Obligations.iflrTypes_eq'],
         rule='frames with 1..5 channels, 8 dtypes, scalar or width 1..5, rows 1..17, arbitrary bit patterns (extremes, '
              'NaN payloads, signed zero), byte order / F-order / strided / read-only / view layouts, input chunk sizes '
@@ -54,6 +55,84 @@ CFG = {
              'NO-FORMAT objects of each logical file, record lengths 20..16384.',
         note=''),
 }
+
+
+INT_TYPES = {'int8': (1, 1), 'int16': (2, 1), 'int32': (4, 1), 'uint8': (1, 0), 'uint16': (2, 0), 'uint32': (4, 0)}
+
+
+def integer_cast_stream(chk, model, bres, tier, prop):
+    """a declared cast between integer types, values over the whole range of the source type (edges of both types
+    included): (a) numpy's own conversion vs `castInt` / `encInt` of Model/Cast.lean; (b) through the library: the file
+    written from the source values with `cast_dtype` is, byte for byte, the file written without a cast from the values
+    the MODEL computes, held in an array of the target type"""
+    import shutil
+    import tempfile
+    import numpy as np
+    from harness.common import rng, hexs
+    from harness.impl import call
+    from dliswriter import DLISFile
+    if not bres.ok:
+        return
+    R = rng(prop, 'integer-casts')
+    tmp = tempfile.mkdtemp(prefix='verif_cast_')
+    try:
+        pairs = [(a, b) for a in INT_TYPES for b in INT_TYPES if a != b]
+        for i, (src, dst) in enumerate(pairs * (1 if tier == 'quick' else 6)):
+            lo, hi = np.iinfo(src).min, np.iinfo(src).max
+            dlo, dhi = np.iinfo(dst).min, np.iinfo(dst).max
+            rows = R.choice([4, 6, 9])
+            width = R.choice([None, None, 3])
+            n = rows * (width or 1)
+            cand = [lo, hi, lo + 1, hi - 1, 0, 1, -1, dlo, dhi, dlo - 1, dhi + 1, 127, 128, 255, 256, 32767, 32768, 65535, 65536]
+            vals = [int(v) for v in cand if lo <= v <= hi]
+            R.shuffle(vals)
+            vals = (vals + [R.randint(lo, hi) for _ in range(n)])[:n]
+            nb, sg = INT_TYPES[dst]
+            rep = model.ask([f"cast {nb} {sg} {','.join(str(v) for v in vals)}"])[0]
+            x = np.array(vals, dtype=src)
+            want = x.astype(dst)
+            case = {'from': src, 'to': dst, 'values': vals, 'width': width}
+            chk.case('integer-casts', nontrivial_key=('ic', i), sample={'from': src, 'to': dst, 'first_values': vals[:6]})
+            if not rep.startswith('ok '):
+                chk.disagree('integer-casts:numpy', case, str(want.tolist()), rep)
+                continue
+            mvals = [int(t) for t in rep.split(' ')[1].split(',')]
+            mhex = rep.split(' ')[2]
+            if mvals != [int(t) for t in want.tolist()] or mhex != hexs(want.astype(np.dtype(dst).newbyteorder('>')).tobytes()):
+                chk.disagree('integer-casts:numpy', case, f'{want.tolist()} {hexs(want.astype(np.dtype(dst).newbyteorder(">")).tobytes())}', rep)
+                continue
+            shape = (rows,) if width is None else (rows, width)
+            how = R.choice(['inline', 'dict'])
+
+            def build(cast):
+                df = DLISFile(set_identifier='CAST')
+                lf = df.add_logical_file(fh_id='H')
+                lf.add_origin('O', file_set_number=1, creation_time='2020/01/01 00:00:00')
+                d = np.arange(rows, dtype=np.float64)
+                arr = x.reshape(shape) if cast else np.array(mvals, dtype=dst).reshape(shape)
+                kw = {'cast_dtype': np.dtype(dst)} if cast else {}
+                if how == 'inline':
+                    chans = [lf.add_channel('DEPTH', data=d), lf.add_channel('V', data=arr, **kw)]
+                    data = None
+                else:
+                    chans = [lf.add_channel('DEPTH'), lf.add_channel('V', **kw)]
+                    data = {'DEPTH': d, 'V': arr}
+                lf.add_frame('F', channels=chans)
+                path = f'{tmp}/{int(cast)}.dlis'
+                df.write(path, output_chunk_size=2**20, **({'data': data} if data is not None else {}))
+                return open(path, 'rb').read()
+            (s0, b0), (s1, b1) = call(build, False), call(build, True)
+            chk.count(f'integer-casts:{s0}:{s1}')
+            if s0 != 'ok':
+                continue
+            if s1 != 'ok':
+                chk.fail('integer-casts:refused', dict(case, route=how), f'write with cast_dtype={dst} raises {b1}')
+            elif b0 != b1:
+                chk.fail('integer-casts:file-differs', dict(case, route=how),
+                         f'the file written with cast_dtype={dst} differs from the one written from the values reduced modulo '
+                         f'2^{8 * nb} held as {dst}')
+    finally:
+        shutil.rmtree(tmp, ignore_errors=True)
 
 
 def shared_dataset_stream(chk, tier, prop):
@@ -174,6 +253,7 @@ def run_prop(prop, tier):
         rewrite_stream(chk, model, bres, tier)
     if prop in ('C08', 'C03'):
         shared_dataset_stream(chk, tier, prop)
+        integer_cast_stream(chk, model, bres, tier, prop)
     if prop in ('C08', 'C03'):
         # a frame that lists two channels of one name (they differ in copy number only): refused, or written so that the
         # descriptors of BOTH channels describe the slots of every row
